@@ -2235,6 +2235,7 @@ class Meteo(Output):
     description = "Plot a meteogram, with deterministic forecast, all quantile lines available (use -q to select a subset of quantiles), and observations. This makes most sense to use for a single location and forecast initialization time. If multiple dates and locations are used, then the average is used."
     supports_threshold = False
     supports_x = False
+    default_axis = verif.axis.Time()
     _obs_col = [1, 0, 0]
     _fcst_col = [0, 1, 0]
 
